@@ -31,7 +31,8 @@ package controller
 //@   props C12
 //@   ghostret setOK[f] := err == nil
 //@   ensures setOK[f] == (err == nil)
-//@   requires mapInv(f) && fans.fanWF(f.fan) && util.inInt32(target)
+//@   requires fans.fanWF(f.fan)
+//@   requires[regulation -C15 -C16] mapInv(f) && util.inInt32(target)
 //@   atcall[C12.write C01 C05] SetPwm: exists s :: nearestIn(distinct(f), s, target) && pwm == f.pwmMap[s]
 //@   ensures[last] f.lastSetPwm != nil && *f.lastSetPwm == target
 //@   ensures[C12.others C01 C05] forall o int :: o != ref(f.fan) ==> pwmWrites[o] == old(pwmWrites)[o] && lastPwm[o] == old(lastPwm)[o]
@@ -43,7 +44,7 @@ package controller
 //@ func (*DefaultFanController).updateDistinctPwmValues
 //@   props C12
 //@   requires fans.fanWF(f.fan)
-//@   requires forall k :: k in f.pwmMap ==> f.pwmMap[k] != -1
+//@   requires[nosentinel -C15 -C16] forall k :: k in f.pwmMap ==> f.pwmMap[k] != -1
 //@   ensures[C12.asc C01 C05]    util.strictlyAsc(distinct(f))
 //@   ensures[C12.subset C01 C05] forall j :: 0 <= j && j < len(distinct(f)) ==> distinct(f)[j] in f.pwmMap
 //@   ensures[C12.first]    forall k :: k in f.pwmMap ==> len(distinct(f)) > 0 && distinct(f)[0] <= k
@@ -173,6 +174,9 @@ package controller
 //@     invariant mapInv(*f)
 
 // ---- start-up: stored characterisation is reused (C15) ------------------------------------------------------
+// The C15 check claims nothing about panics during start-up (C09 covers the regulation loop), and the
+// regulation-only preconditions (map invariant, data ranges) are not part of the contracts in this mode.
+//@ mode C15 nosafety
 //@ ghost var initRuns int
 //@ pure cfgMap(fan fans.Fan) *map[int]int = fan is *fans.HwMonFan ? fan.(*fans.HwMonFan).Config.PwmMap : (fan is *fans.FileFan ? fan.(*fans.FileFan).Config.PwmMap : fan.(*fans.CmdFan).Config.PwmMap)
 
@@ -194,4 +198,45 @@ package controller
 //@   requires f != nil && fans.fanWF(f.fan) && f.persistence != nil && persistence.dbWF()
 //@   ensures[C15.config] old(cfgMap(f.fan)) != nil ==> err == nil && ref(f.pwmMap) == old(ref(*cfgMap(f.fan))) && pwmWrites == old(pwmWrites) && modeWrites == old(modeWrites)
 //@   ensures[C15.stored] old(cfgMap(f.fan)) == nil && mapLoadOK[old(mapLoadCount)] && mapLoadRes[old(mapLoadCount)] != 0 ==> err == nil && ref(f.pwmMap) == mapLoadRes[old(mapLoadCount)] && pwmWrites == old(pwmWrites) && modeWrites == old(modeWrites)
+//@   ensures f.fan == old(f.fan) && f.persistence == old(f.persistence) && persistence.dbWF() && initRuns == old(initRuns)
+//@   modifies f.pwmMap, each(map[int]int)[_], pwmWrites, lastPwm, lastPwmErr, modeWrites, lastMode, modeVerified, fileInt, procWorld, started, lastReadFailed, supportsResult, f.fan.(*fans.HwMonFan).Pwm, f.fan.(*fans.FileFan).Pwm, f.fan.(*fans.CmdFan).Pwm
+//@   modifies dbBucket, dbHas, dbVal, txBucket, txHas, txVal, decodeFailed, mapLoadCount, mapLoadOK, mapLoadRes
+
+//@ opaque func (*DefaultFanController).waitForFanToSettle
+//@   modifies fan.(*fans.FileFan).Rpm, fan.(*fans.CmdFan).Rpm, procWorld, started, lastReadFailed, lastRpmRead
+//@   trusted "polls the RPM input until ten consecutive differences are small; body not verified (rolling-window library), termination not claimed"
+
+//@ func (*DefaultFanController).RunInitializationSequence
+//@   props C15
+//@   safety C09
+//@   ghostdo initRuns := initRuns + 1
+//@   ensures initRuns == old(initRuns) + 1
+//@   ensures f.fan == old(f.fan) && f.persistence == old(f.persistence) && fans.fanWF(f.fan) && persistence.dbWF() && f.originalPwmEnabled == old(f.originalPwmEnabled)
+//@   ensures fans.dataPtr(f.fan) == old(fans.dataPtr(f.fan)) || fresh(fans.dataPtr(f.fan))
+//@   ensures curveLoadCount == old(curveLoadCount) && curveLoadOK == old(curveLoadOK)
+//@   requires f != nil && fans.fanWF(f.fan) && f.persistence != nil && persistence.dbWF()
 //@   modifies anything
+//@   loop 1 "for _, pwm := range f.pwmValuesWithDistinctTarget"
+//@     invariant initRuns == old(initRuns) + 1 && f != nil && fans.fanWF(f.fan) && fan == f.fan && f.fan == old(f.fan) && fans.dataPtr(f.fan) == old(fans.dataPtr(f.fan)) && f.persistence == old(f.persistence) && persistence.dbWF() && curveData != nil && f.originalPwmEnabled == old(f.originalPwmEnabled) && curveLoadCount == old(curveLoadCount) && curveLoadOK == old(curveLoadOK)
+
+//@ extern func (g *github.com/oklog/run.Group).Add(execute func, interrupt func)
+//@   effectfree
+//@   trusted "registers an actor; nothing runs before Run"
+//@ extern func (g *github.com/oklog/run.Group).Run() (err error)
+//@   modifies anything
+//@   trusted "runs all registered actors until the first returns, interrupts the others and waits for all of them; regulation happens in here"
+
+//@ func (*DefaultFanController).Run
+//@   props C15
+//@   safety C09
+//@   requires f != nil && fans.fanWF(f.fan) && f.persistence != nil && persistence.dbWF() && ctx != nil && ref(fans.dataPtr(f.fan)) < W
+//@   atcall[C15.noinit] (*Group).Run: curveLoadOK[old(curveLoadCount)] ==> initRuns == old(initRuns)
+//@   atcall[C15.nosweep] (*Group).Run: curveLoadOK[old(curveLoadCount)] && (old(cfgMap(f.fan)) != nil || (mapLoadOK[old(mapLoadCount)] && mapLoadRes[old(mapLoadCount)] != 0)) ==> pwmWrites == old(pwmWrites) && modeWrites == old(modeWrites)
+//@   atcall[C15.readme] (*Group).Run: f.fan is *fans.HwMonFan && f.fan.(*fans.HwMonFan).Config.MinPwm != nil && f.fan.(*fans.HwMonFan).Config.MaxPwm != nil ==> initRuns == old(initRuns)
+//@   modifies anything
+
+//@ func NewFanController
+//@   requires fans.fanWF(fan)
+//@   ensures result is *DefaultFanController && result.(*DefaultFanController) != nil && fresh(result.(*DefaultFanController))
+//@   ensures result.(*DefaultFanController).fan == fan && result.(*DefaultFanController).persistence == persistence && result.(*DefaultFanController).pwmMap == nil
+//@   modifies nothing
